@@ -3,6 +3,15 @@
 The author gets only the property text and a scratch worktree (nothing from /verif)."""
 import json, sys
 pid, wt = sys.argv[1], sys.argv[2]
+letters = sys.argv[3] if len(sys.argv) > 3 else "a, b"
+import glob, os
+PRIOR = []
+for mf in sorted(glob.glob(f'/verif/seeded/{pid}-*/meta.json')):
+    m = json.load(open(mf))
+    PRIOR.append("  * " + (m.get("summary") or "").replace("\n", " ")[:400])
+prior_txt = ""
+if PRIOR and len(sys.argv) > 3:
+    prior_txt = "Mechanisms other authors have ALREADY delivered for this property (do not repeat these or close variants; pick different code paths and different triggering conditions):\n" + "\n".join(PRIOR) + "\n\n"
 p = [json.loads(l) for l in open('/verif/properties.jsonl') if json.loads(l)['id'] == pid][0]
 print(f"""You are testing how well an (unseen) verification suite for the Python units library `unyt` (yt-project/unyt) detects realistic regressions. You have your own scratch git worktree of the library at {wt} (a checkout of the pinned commit; work ONLY inside it; do not look at or touch /repo, /verif or any other directory outside {wt} except the Python interpreter /venv/bin/python). There is no network.
 
@@ -12,9 +21,9 @@ The semantic property under test ({pid}: {p['title']}):
 
 Your job: produce TWO different, independent changes to the library source (under {wt}/unyt/, not the tests) each of which BREAKS this property while the library still imports and the existing test-suite still passes exactly as before. Each change should be the kind of regression a plausible refactoring, optimisation or "small fix" could introduce, and should need something specific to manifest - a particular multi-step sequence of operations, an unusual input, a particular branch/dtype/unit/prefix, warm-vs-cold cache state, or two cooperating sites that each look fine alone - not something ordinary use would expose at once, and not something the existing tests check. The two changes must use different mechanisms in different parts of the code relevant to the property.
 
-Baseline: `cd {wt} && /venv/bin/python -m pytest -q -p no:cacheprovider --timeout=900 unyt 2>&1 | tail -3` gives 652 passed, 28 failed on the unchanged tree (the 28 failures are pre-existing, listed in {wt}/BASELINE_FAILED.txt). With each of your changes applied the result must be exactly the same: 652 passed and the same 28 failures (check with `-rf` and compare the FAILED test ids).
+{prior_txt}Baseline: `cd {wt} && /venv/bin/python -m pytest -q -p no:cacheprovider --timeout=900 unyt 2>&1 | tail -3` gives 652 passed, 28 failed on the unchanged tree (the 28 failures are pre-existing, listed in {wt}/BASELINE_FAILED.txt). With each of your changes applied the result must be exactly the same: 652 passed and the same 28 failures (check with `-rf` and compare the FAILED test ids).
 
-For each change k in (a, b) deliver, in {wt}/out/{pid}-<k>/ :
+For each change k in ({letters}) deliver, in {wt}/out/{pid}-<k>/ :
   * patch.diff   - `git -C {wt} diff` of ONLY that change (apply cleanly with `git apply` on the pinned commit; source files under unyt/ only)
   * demo.py      - a small standalone program (run as `PYTHONPATH=<tree> /venv/bin/python demo.py`) that exits 0 on the unchanged tree and exits 1 (printing what went wrong) with the change applied; it must exercise the property as stated, through the public API
   * meta.json    - {{"property": "{pid}", "summary": "...what the change does...", "needs": "...what specific input/sequence/state it needs to manifest...", "files": [...], "suite": "652 passed, 28 failed (same set)"}}
